@@ -273,8 +273,8 @@ def jobs(tier):
             for n, m in ((1, 1), (2, 1), (2, 2), (3, 2), (2, 3), (3, 3)):
                 if maxT == 4.0 and (n, m) not in ((2, 2), (3, 2)):
                     continue
-                for rl in P[n]:
-                    for el in P[m][:3]:
+                for rl in (P[n] if not (maxT == 4.0 and n == 3) else P[n][:2]):
+                    for el in (P[m][:3] if not (maxT == 4.0 and n == 3) else P[m][:1]):
                         el2 = [x.upper() if i == 0 else x for i, x in enumerate(el)]
                         combos.append((n, m, rl, el2, fs, maxT, (n, m) == (2, 2) and fs == 0.5 and maxT == 2.0))
     for c in combos:
